@@ -154,14 +154,29 @@ def prepare(tier, seed=1):
                 rejected[f] = msg
                 os.remove(os.path.join(gm, "decl_ins", f))
         info["rejected"] = rejected
-        # fresh testobj_ins must build as a whole
-        p = run(["go", "build", "./fresh/testobj_ins/"], cwd=gm, check=False)
-        info["fresh_testobj_builds"] = p.returncode == 0
-        if p.returncode != 0:
-            info["errors"].append("regenerated testobj_ins does not build: " + (p.stdout or "")[-1500:])
-            shutil.rmtree(os.path.join(gm, "fresh", "testobj_ins"), ignore_errors=True)
-            os.makedirs(os.path.join(gm, "fresh", "testobj_ins"))
+        # fresh testobj_ins must build as a whole; files the compiler rejects are recorded and dropped
+        fresh_rejected = {}
+        for rnd in range(8):
+            p = run(["go", "build", "-gcflags=-e", "./fresh/testobj_ins/"], cwd=gm, check=False)
+            if p.returncode == 0:
+                break
+            bad = {}
+            for line in (p.stdout or "").splitlines():
+                m = re.match(r"^(?:\./)?fresh/testobj_ins/([a-z0-9_]+\.go):(\d+):(\d+): (.*)$", line.strip())
+                if m:
+                    bad.setdefault(m.group(1), "%s:%s: %s" % (m.group(2), m.group(3), m.group(4)))
+            if not bad:
+                info["errors"].append("regenerated testobj_ins does not build and no file could be blamed: " + (p.stdout or "")[-1500:])
+                shutil.rmtree(os.path.join(gm, "fresh", "testobj_ins"), ignore_errors=True)
+                os.makedirs(os.path.join(gm, "fresh", "testobj_ins"))
+                break
+            for f, msg in bad.items():
+                fresh_rejected[f] = msg
+                os.remove(os.path.join(gm, "fresh", "testobj_ins", f))
+        if not [f for f in os.listdir(os.path.join(gm, "fresh", "testobj_ins")) if f.endswith(".go")]:
             open(os.path.join(gm, "fresh", "testobj_ins", "doc.go"), "w").write("package testobj_ins\n")
+        info["fresh_testobj_builds"] = not fresh_rejected
+        info["fresh_rejected"] = fresh_rejected
         # 4. main package registering every surviving type; harness binary
         run([os.path.join(bindir, "gengram"), "-root", gm, "-phase", "main"], cwd=wd)
         p = run(["go", "build", "-o", os.path.join(bindir, "corr"), "."], cwd=gm, check=False)
